@@ -12,6 +12,7 @@ import Ndt.Model.Diff
 import Ndt.Model.Points
 import Ndt.Model.Jacobian
 import Ndt.Model.Hessian
+import Ndt.Model.History
 import Ndt.Gen.BicomplexRing
 /-! The line-protocol driver: one operation per input line, one output line per input line. -/
 namespace Ndt.Driver
@@ -119,8 +120,59 @@ def parseMono (s : String) : Rat × List Nat :=
 def evalMPoly (ms : List (Rat × List Nat)) (y : Nat → Rat) : Rat :=
   ms.foldl (fun acc (c, es) => acc + c * ((List.range es.length).foldl (fun p k => p * npow (y k) (es.getD k 0)) 1)) 0
 
+/-- concrete instance of the history model for the trace correspondence: values are the keys themselves, generator
+options = optional fixed ratio, points are opaque tokens -/
+def histPipeline (ratio1 ratioN : Rat) : Pipeline RuleKey (Option Rat) String Unit Unit where
+  compute := id
+  stepsOf := fun _ _ => ()
+  ratioOf := fun o st => match o with
+    | some r => r
+    | none => if st.n == 1 then ratio1 else ratioN
+  eval := fun _ _ _ _ => ()
+
+def keyStr (k : RuleKey) : String := s!"{ratStr k.ratio},{k.parity},{k.nterms}"
+def methStr : Method → String
+  | .central => "central" | .central2 => "central2" | .forward => "forward" | .backward => "backward"
+  | .complex => "complex" | .multicomplex => "multicomplex" | .other => "other"
+
+def histOp (tok : String) : Option (Op (Option Rat) String) :=
+  match tok.splitOn "," with
+  | ["C", m, n, o, uses, r] =>
+    some (.construct ⟨n.toNat!, Method.ofString m, o.toNat!, 2, false, uses == "1"⟩ (if r == "-" then none else some (rq r)) "init")
+  | ["K", i, x] => some (.call i.toNat! x)
+  | ["N", i, n] => some (.setN i.toNat! n.toNat!)
+  | ["O", i, o] => some (.setOrder i.toNat! o.toNat!)
+  | ["M", i, m] => some (.setMethod i.toNat! (Method.ofString m))
+  | ["S", i, j] => some (.shareGen i.toNat! j.toNat!)
+  | ["X"] => some .clearCache
+  | _ => none
+
+def runHistory (ratio1 ratioN : Rat) (toks : List String) : String :=
+  let p := histPipeline ratio1 ratioN
+  let rec go (w : World RuleKey (Option Rat) String) (toks : List String) (acc : List String) : List String :=
+    match toks with
+    | [] => acc.reverse
+    | t :: rest =>
+      match histOp t with
+      | none => ("bad-op" :: acc).reverse
+      | some op =>
+        let w' := (w.step p op).1
+        let keys := (w'.cache.map (fun e => keyStr e.1))
+        let sorted := keys.toArray.qsort (· < ·) |>.toList
+        let st := match op with
+          | .call i _ => match w'.objs[i]? with
+            | some (_, g) => match w'.gens[g]? with
+              | some (_, s) => s!"{g}:{s.x}:{methStr s.method}:{s.n}:{s.order}"
+              | none => "-"
+            | none => "-"
+          | _ => "-"
+        go w' rest (s!"{";".intercalate sorted}|{st}" :: acc)
+  " ".intercalate (go ⟨[], [], []⟩ toks [])
+
 def handle (w : List String) : String :=
   match w with
+  -- history ratio1 ratioN ops… : the trace of cache keys and generator states
+  | "history" :: r1 :: rn :: toks => runHistory (rq r1) (rq rn) toks
   -- jacravel n m [k]: the layout of one stacked row, with the symbolic entries 10000 j + 100 i + l
   | ["jacravel", n, m] =>
     joinSp ((jacRavel2 n.toNat! m.toNat! (fun j i => ((10000 * j + 100 * i : Nat) : Rat))).map ratStr) ++ " | " ++
